@@ -20,7 +20,7 @@ CLAIMED = {
  'C16': ('proof', 'structural Coq lemmas (all Ops): every swizzle getter and with_ setter of every vector type in three backends', 'trusted: method-name spec'),
  'C17': ('proof', 'structural Coq lemmas: constructors, constants, readers, writers against the list-of-lanes view; generic history refinement theorem AccessHist.v', 'partial: Debug/Display not modelled; the history theorem is generic (not instantiated per type)'),
  'C18': ('proof', 'outcome lemmas (all Ops with Rust integer semantics): Ok for every public float function x literal index/order/slice length, Panic exactly outside documented bounds, exact first-N slice read/write', 'partial: machine-level memory facts (ASan) outside the model'),
- 'C20': ('proof', 'generic assertion-erasure theorem (Erase.v) instantiated per function pair: whatever the glam-assert build returns the plain build returns, for all Ops, arguments and fuel; documented-violation witnesses on model and crate', 'partial: numeric margins of is_normalized checks along chains are differential only'),
+ 'C20': ('proof', 'generic assertion-erasure theorem (Erase.v) instantiated per function pair: whatever the glam-assert build returns the plain build returns, for all Ops, arguments and fuel; documented-violation witnesses on model and crate', 'partial: that float outputs stay within the is_normalized tolerance along chains is differential only (chain run on assert/plain drivers); the exact real-arithmetic unit-ness of the outputs is proved in UnitAlg.v'),
 }
 NOT_BUILT = {
  'C19': 'not built in this round: the optional-feature sources (serde/bytemuck/rkyv/mint) are not translated; the technique applies to the lane-order/layout core',
